@@ -200,6 +200,74 @@ def cross_run(policy):
   return s, box
 
 
+def reg_run(policy):
+  """runs starting and ending at the same time: two registrations race, then
+  a removal races with a third registration; afterwards every live run must
+  still capture its messages and no ended run may keep a handler"""
+  from vf import sched
+  from openhtf.core import test_record
+  from openhtf.util import logs
+  s = sched.Sched(policy=policy, max_steps=40000, quiet_logging=False, trace_files=('openhtf/util/logs.py',))
+  box = {}
+
+  def main():
+    lg = logging.getLogger('openhtf')
+    for h in list(lg.handlers):
+      if isinstance(h, logs.RecordHandler):
+        lg.removeHandler(h)
+    recs = {k: test_record.TestRecord(dut_id=None, station_id='s') for k in 'abc'}
+    uid = dict(a=UID['ab'], b=UID['abc'], c=UID['ab'] + 'x')
+
+    def start(k):
+      logs.initialize_record_handler(uid[k], recs[k], lambda: None)
+
+    def end(k):
+      logs.remove_record_handler(uid[k])
+
+    def par(*jobs):
+      ths = [threading.Thread(target=f, args=(k,), name='%s-%s' % (f.__name__, k)) for f, k in jobs]
+      for t in ths:
+        t.start()
+      for t in ths:
+        t.join()
+    par((start, 'a'), (start, 'b'))
+    for k in 'ab':
+      logs.get_record_logger_for(uid[k]).warning('%s1', k)
+    par((end, 'a'), (start, 'c'))
+    logging.getLogger('openhtf.core').warning('fw')
+    for k in 'bc':
+      logs.get_record_logger_for(uid[k]).warning('%s2', k)
+    box['msgs'] = {k: [r.message for r in recs[k].log_records] for k in 'abc'}
+    box['handlers'] = sorted(h.test_uid for h in lg.handlers if isinstance(h, logs.RecordHandler))
+    box['want_handlers'] = sorted([uid['b'], uid['c']])
+    for k in 'bc':
+      logs.remove_record_handler(uid[k])
+  s.run(main)
+  return s, box
+
+
+def work_r(args):
+  sys.argv = sys.argv[:1]
+  bound, root, maxruns = args
+  from vf import explore
+  import openhtf  # noqa: F401
+  n, bad = 0, []
+  want = dict(a=['a1'], b=['b1', 'fw', 'b2'], c=['fw', 'c2'])
+  for picks, decisions, box, failure in explore.explore(reg_run, bound, max_runs=maxruns, root=root):
+    n += 1
+    det = dict(scenario='reg', schedule=picks, got=box and box.get('msgs'))
+    if failure is not None:
+      bad.append(('logging threads never finish (%s)' % type(failure).__name__, det))
+      continue
+    if box['handlers'] != box['want_handlers']:
+      bad.append(('a run that started while another run started or ended lost its record handler' if len(box['handlers']) < 2
+                  else 'handler of an ended run still installed', det))
+    elif box['msgs'] != want:
+      bad.append(('a finished record was altered by later logging' if box['msgs']['a'] != want['a']
+                  else 'a run\'s own log messages were not captured exactly once in order', det))
+  return n, bad[:5]
+
+
 def work_x(args):
   sys.argv = sys.argv[:1]
   bound, root, maxruns = args
@@ -414,6 +482,17 @@ def main(chk):
     chk.nontrivial += tot
     chk.tlc_runs.append(dict(name='dfs two runs logging concurrently (statement-level scheduling points in logs.py)', schedules=tot))
     chk.log('cross-run logging schedules: %d' % tot)
+    roots = explore.split_roots(reg_run, 1 if quick else 2, 6)
+    per = max(50, (6000 if quick else 150000) // max(1, len(roots)))
+    tot = 0
+    for n, bad in pool.map(work_r, [(1 if quick else 2, r, per) for r in roots], chunksize=1):
+      tot += n
+      for sig, det in bad:
+        chk.violation(sig, det)
+    chk.traces += tot
+    chk.nontrivial += tot
+    chk.tlc_runs.append(dict(name='dfs runs starting / ending concurrently (registration vs registration, removal vs registration)', schedules=tot))
+    chk.log('registration/removal schedules: %d' % tot)
     ns = 40 if quick else 600
     jobs = [([chk.seed * 1000 + i for i in range(k, ns, 7)], True) for k in range(7)]
     jobs += [([chk.seed * 1000 + i for i in range(3)], False)]
